@@ -357,7 +357,12 @@ Returns:
     print(f.INDEPENDENT_VARIABLE, file=outfile)
     print('%d' % len(depvarkeys), file=outfile)
     print(delim.join(['1' for k in depvarkeys]), file=outfile)
-    print(delim.join([str(getattr(f.variables[k], 'missing_value', -999))
+    def misscode(var):
+        # the declared missing code must be the value masked data are
+        # written with
+        return getattr(var, 'missing_value', getattr(var, 'fill_value', -999))
+
+    print(delim.join([str(misscode(f.variables[k]))
                       for k in depvarkeys]), file=outfile)
     for key, var in f.variables.items():
         if key == f.INDEPENDENT_VARIABLE:
@@ -370,13 +375,14 @@ Returns:
     for key in myattrs:
         print('%s: %s' % (key, getattr(f, key, '')), file=outfile)
 
-    vals = [filled(f.variables[f.INDEPENDENT_VARIABLE][:]).ravel()]
+    indvar = f.variables[f.INDEPENDENT_VARIABLE]
+    vals = [filled(indvar[:], misscode(indvar)).ravel()]
     keys = [f.INDEPENDENT_VARIABLE]
     for key, var in f.variables.items():
         if key == f.INDEPENDENT_VARIABLE:
             continue
         keys.append(key)
-        vals.append(filled(var[:]).ravel())
+        vals.append(filled(var[:], misscode(var)).ravel())
 
     print(delim.join(keys), file=outfile)
     for row in array(vals).T:
